@@ -16,6 +16,7 @@ import (
 func init() {
 	register(&Property{
 		ID:      "C11",
+		NeedGen: true, // the stream fields and the deferred-result wait of the generated executors end the operation too
 		Runtime: RuntimeCore,
 		Run:     runC11,
 		Explanation: "Safety skeleton of the websocket connection state machine, on every path: (init-first) subscribe is called only from run, run only from Do on the init()==true edge; init returns true only under the " +
